@@ -21,6 +21,8 @@ for pid in props:
         "level_note": r["note"],
         "technique": r["technique"],
     })
+for e in reg["engines"]:
+    e["serves_properties"] = [c["property_id"] for c in checks]
 man = {
     "version": 1,
     "setup_cmd": "./setup.sh",
